@@ -54,6 +54,7 @@ func ConcatChunks(cs []M) M {
 	out := M{}
 	for _, c := range cs {
 		for k, v := range c {
+			v = UnwrapV(v)
 			if old, ok := out[k]; ok {
 				out[k] = fmt.Sprint(old) + fmt.Sprint(v)
 			} else {
@@ -186,6 +187,34 @@ func addKeyedLambda(cg *compose.Graph[M, M], n Node, f func(ctx context.Context,
 	switch {
 	case n.InKey == "" && n.OutKey == "":
 		return cg.AddLambdaNode(n.Key, nativeLambdaG(f, n.Native, chunkM, ConcatChunks, produce))
+	case n.InKey == "" && n.OutKey != "" && n.OutTyped:
+		g := func(ctx context.Context, in M) (map[string]string, error) {
+			o, err := f(ctx, in)
+			if err != nil {
+				return nil, err
+			}
+			return map[string]string{"v": val(o)}, nil
+		}
+		chunkT := func(o map[string]string) []map[string]string {
+			var cs []map[string]string
+			for _, piece := range ChunkStr(pat, o["v"]) {
+				cs = append(cs, map[string]string{"v": piece})
+			}
+			return cs
+		}
+		var produceT func([]map[string]string) *schema.StreamReader[map[string]string]
+		if produce != nil {
+			produceT = func(cs []map[string]string) *schema.StreamReader[map[string]string] {
+				ms := make([]M, len(cs))
+				for i, c := range cs {
+					ms[i] = M{"_": c["v"]}
+				}
+				return schema.StreamReaderWithConvert(produce(ms), func(m M) (map[string]string, error) {
+					return map[string]string{"v": fmt.Sprint(m["_"])}, nil
+				})
+			}
+		}
+		return cg.AddLambdaNode(n.Key, nativeLambdaG(g, n.Native, chunkT, ConcatChunks, produceT), compose.WithOutputKey(n.OutKey))
 	case n.InKey == "" && n.OutKey != "":
 		g := func(ctx context.Context, in M) (string, error) {
 			o, err := f(ctx, in)
@@ -346,6 +375,22 @@ func AssignKeys(r *vh.Rand, g *Graph) {
 			continue
 		}
 		n.InKey = preds[r.Intn(len(preds))]
+	}
+	// typed nested maps under an output key (only where no node takes that key as its string input)
+	for i := range g.Nodes {
+		n := &g.Nodes[i]
+		if n.OutKey == "" || n.InKey != "" || !r.Chance(40) {
+			continue
+		}
+		taken := false
+		for _, m := range g.Nodes {
+			if m.InKey == n.OutKey {
+				taken = true
+			}
+		}
+		if !taken {
+			n.OutTyped = true
+		}
 	}
 }
 
